@@ -21,6 +21,10 @@ fn mark_client() {
     IS_CLIENT.with(|c| c.set(true));
 }
 
+pub fn mark_client_pub() {
+    mark_client();
+}
+
 /// a deterministic hasher that makes every hash computed on a worker thread take a while
 #[derive(Clone, Default)]
 pub struct SlowWorkerHasher {
